@@ -65,6 +65,118 @@ func (p *Program) Reach(from []Loc, stop func(ssa.Instruction) bool) map[ssa.Ins
 	return visited
 }
 
+// ReachAssuming is Reach under assumptions about the nil-ness of some SSA values (true: the value
+// is nil): a branch that tests such a value against nil is followed on the consistent side only.
+// The assumption is about the dynamic instance that exists at the start locations; it is sound
+// for questions of the form "can the defining instruction be reached again".
+func (p *Program) ReachAssuming(from []Loc, stop func(ssa.Instruction) bool, isNil map[ssa.Value]bool) map[ssa.Instruction]bool {
+	visited := map[ssa.Instruction]bool{}
+	var work []Loc
+	work = append(work, from...)
+	for len(work) > 0 {
+		l := work[len(work)-1]
+		work = work[:len(work)-1]
+		ended := false
+		for i := l.I; i < len(l.B.Instrs); i++ {
+			in := l.B.Instrs[i]
+			if visited[in] {
+				ended = true
+				break
+			}
+			if stop != nil && stop(in) {
+				ended = true
+				break
+			}
+			visited[in] = true
+			if p.callNoReturnCached(in) {
+				ended = true
+				break
+			}
+			if _, ok := in.(*ssa.Panic); ok {
+				ended = true
+				break
+			}
+		}
+		if ended {
+			continue
+		}
+		succs := p.feasibleSuccs(l.B)
+		if v, eq, ok := nilTestOf(l.B); ok && len(l.B.Succs) == 2 {
+			if n, known := isNil[v]; known {
+				// the condition "v == nil" (eq) or "v != nil" is true iff n == eq
+				if n == eq {
+					succs = l.B.Succs[:1]
+				} else {
+					succs = l.B.Succs[1:]
+				}
+			}
+		}
+		for _, s := range succs {
+			work = append(work, Loc{s, 0})
+		}
+	}
+	return visited
+}
+
+// nilTestOf: the block ends in `if v == nil` (eq true) or `if v != nil` (eq false), negations folded.
+func nilTestOf(b *ssa.BasicBlock) (ssa.Value, bool, bool) {
+	if len(b.Instrs) == 0 {
+		return nil, false, false
+	}
+	ifi, ok := b.Instrs[len(b.Instrs)-1].(*ssa.If)
+	if !ok {
+		return nil, false, false
+	}
+	v := ifi.Cond
+	neg := false
+	for {
+		if u, ok := v.(*ssa.UnOp); ok && u.Op == token.NOT {
+			v, neg = u.X, !neg
+			continue
+		}
+		break
+	}
+	x, ok := v.(*ssa.BinOp)
+	if !ok || (x.Op != token.EQL && x.Op != token.NEQ) {
+		return nil, false, false
+	}
+	a, c := x.X, x.Y
+	if isNilConst(a) {
+		a, c = c, a
+	}
+	if !isNilConst(c) || isNilConst(a) {
+		return nil, false, false
+	}
+	return a, (x.Op == token.EQL) != neg, true
+}
+
+// NilOnPath: what the branches taken on the path (before block index upto) say about v being
+// nil; v and the tested values are resolved through the Phis of the path.
+func (pa *Path) NilOnPath(v ssa.Value, upto int) (isNil bool, known bool) {
+	if upto > len(pa.Blocks) {
+		upto = len(pa.Blocks)
+	}
+	v = stripConv(pa.ResolveAt(v, upto-1))
+	if isNilConst(v) {
+		return true, true
+	}
+	for i := 0; i < upto && i < len(pa.Edge); i++ {
+		if pa.Edge[i] < 0 {
+			continue
+		}
+		x, eq, ok := nilTestOf(pa.Blocks[i])
+		if !ok {
+			continue
+		}
+		if stripConv(pa.ResolveAt(x, i)) != v {
+			continue
+		}
+		condTrue := pa.Edge[i] == 0
+		return condTrue == eq, true
+	}
+	return false, false
+}
+
 // feasibleSuccs: the successors of b, without the branch edge that a constant
 // condition rules out (a nil test of a value that is never nil, such as a
 // freshly made error; a constant boolean).
